@@ -224,14 +224,17 @@ def run(ctx):
                 if r["ok"] and r["u"] != c["val"]:
                     judge(pfx + "-value", r, "wrong value", _hex(c["val"]))
         elif k == "v1":
-            checks = [("v1-layout", r["u"] == c["u"]), ("v1-version", r["ver"] == 1), ("v1-variant", r["varietf"]),
+            # a node that is not 6 bytes long: octets 0-9 (timestamp, version, variant, clock sequence) are specified,
+            # where the node's bytes land is not (Uuid.tla V1Fields)
+            six = len(c["node"]) == 6
+            checks = [("v1-layout", r["u"] == c["u"] if six else r["u"][:10] == c["u"][:10] and len(r["u"]) == 16), ("v1-version", r["ver"] == 1), ("v1-variant", r["varietf"]),
                       ("v1-timestamp", r["ts"] == c["t"]), ("v1-time", r["tsec"] == c["tsec"] and r["tns"] == c["tns"])]
             bad = [n for n, ok in checks if not ok]
             if bad:
                 judge(bad[0], r, bad[0], _pretty(c))
-            elif r["clk"] != c["clock"] or r["nd"] != c["node"]:
+            elif r["clk"] != c["clock"] % 16384 or (six and r["nd"] != c["node"]):
                 ctx.add_drift("Clock()/Node() of %s return %s / %s, built with %s / %s" % (_hex(r["u"]), r["clk"], _hex(r["nd"]), c["clock"], _hex(c["node"])))
-            elif r["str"] != c["str"]:
+            elif six and r["str"] != c["str"]:
                 ctx.add_drift("String() of %s is %r, canonical form %r" % (_hex(r["u"]), _s(r["str"]), _s(c["str"])))
         elif k == "fromtime":
             checks = [("fromtime-version", r["ver"] == 1), ("fromtime-variant", r["varietf"]),
@@ -377,5 +380,6 @@ def run(ctx):
         "times are restricted to the 60-bit range 1582-10-15 .. 5236-03-31T21:21:00.6846975Z",
         "concurrency: the harness's sharding of the generated UUIDs is glue (TLC re-checks shard membership, version, variant, "
         "counts and distinctness); the wall clock is assumed not to step backwards by more than the time 2^14 UUIDs take",
-        "TimeUUIDWith is exercised with clock < 2^14 and 6-byte nodes only",
+        "TimeUUIDWith with a node that is not 6 bytes long (0..20 bytes tried) is judged on version, variant, timestamp and "
+        "clock sequence only (where the node's bytes land is not specified); clocks up to 2^31-1",
     ]
